@@ -297,3 +297,15 @@ CLAIMED.update({
          "note": STD_NOTE + ORDER_NOTE + " Allocator/release functions are recognised by frozen name tables in engine/props/C10.py.",
          "technique": "static analysis: owning-field lifetime over the destructor call tree (K11), switch exhaustiveness (K10), exactly-once typestate (K11), evaluation of extracted dispatch code per closure value (K6)"},
 })
+CLAIMED.update({
+ "C11": {"level": "other",
+         "text": "event_reinit evaluated from its extracted CFG on every combination of (backend needs reinit, signal event added, notify descriptors open, was notifiable, which step "
+                 "fails): the backend is stubbed out exactly while the internal events are deleted when it needs reinit and restored before dealloc/init; the four descriptors are closed "
+                 "before anything is re-created; dealloc, init, change-list reset, evmap_reinit_ (or evsig_init_ + re-adding the signal event) in order; notifiable again exactly when it "
+                 "was and nothing failed; -1 on failure. Every eventop global whose init reaches a kernel-object constructor has need_reinit set. evmap_io_reinit_iter_fn on every "
+                 "counter/ET/fdinfo_len combination wipes per-fd backend data whenever the backend has any and re-adds exactly the pending conditions (old 0, ET from the first event), "
+                 "evmap_signal_reinit_iter_fn re-adds exactly the signals with events, evmap_reinit_ runs both sweeps and propagates failure. "
+                 "Declined: behaviour of parent and child after fork.",
+         "note": STD_NOTE + ORDER_NOTE,
+         "technique": "static analysis: exhaustive evaluation of extracted code over finite configuration domains against the documented sequence (K6/K3), call-graph reachability to kernel constructors vs table field (K10)"},
+})
